@@ -58,6 +58,18 @@ inductive Stmt where
   | scope (body : Stmt)
   deriving Repr, DecidableEq, Inhabited
 
+/-- `seqs [a, b, c] = seq a (seq b c)` (generated scripts use this to stay flat) -/
+def seqs : List Stmt → Stmt
+  | [] => .skip
+  | [a] => a
+  | a :: r => .seq a (seqs r)
+
+/-- n-ary choice -/
+def choices : List Stmt → Stmt
+  | [] => .skip
+  | [a] => a
+  | a :: r => .choice a (choices r)
+
 /-- How a statement ends. `roExc` is the NoModificationAllowedErr of the read-only guard, `exc` any other
 DOM exception, `stuck` = the interpreter ran out of fuel (never a verdict). -/
 inductive Exit where
@@ -182,18 +194,19 @@ structure Abs where
   valid : List Field            -- the backup slot certainly holds the entry value of the field
   fresh : List Field            -- certainly holds an object created after entry (so no backup aliases it)
   known : List (Flag × Bool)
+  nro : Bool                    -- the read-only guard has been passed: the object is certainly not read-only
   deriving Repr, DecidableEq, Inhabited
 
 def Abs.meet (a b : Abs) : Abs :=
   ⟨a.clean.filter (· ∈ b.clean), a.valid.filter (· ∈ b.valid), a.fresh.filter (· ∈ b.fresh),
-   a.known.filter (· ∈ b.known)⟩
+   a.known.filter (· ∈ b.known), a.nro && b.nro⟩
 
 /-- `a ⊑ b`: everything `a` claims, `b` claims too (so `a` is the weaker, safer description) -/
 def Abs.le (a b : Abs) : Bool :=
   a.clean.all (· ∈ b.clean) && a.valid.all (· ∈ b.valid) && a.fresh.all (· ∈ b.fresh) &&
-  a.known.all (· ∈ b.known)
+  a.known.all (· ∈ b.known) && (!a.nro || b.nro)
 
-def Abs.bot : Abs := ⟨[], [], [], []⟩
+def Abs.bot : Abs := ⟨[], [], [], [], false⟩
 
 def omeet : Option Abs → Option Abs → Option Abs
   | none, b => b
@@ -275,7 +288,7 @@ def post (sc : Stmt) (a : Abs) : Post :=
   | .restore f =>
     { norm := some { a with clean := if f ∈ a.valid then f :: a.clean else a.clean.filter (· ≠ f),
                             fresh := a.fresh.filter (· ≠ f) } }
-  | .guard => { norm := some a, roExc := some a }
+  | .guard => if a.nro then { norm := some a } else { norm := some { a with nro := true }, roExc := some a }
   | .raise => { exc := some a }
   | .mayRaise => { norm := some a, exc := some a }
   | .ret => { ret := some a }
@@ -321,7 +334,7 @@ structure Script where
   body : Stmt
   deriving Repr, Inhabited
 
-def Abs.entry (fs : List Field) : Abs := ⟨fs, [], [], []⟩
+def Abs.entry (fs : List Field) : Abs := ⟨fs, [], [], [], false⟩
 
 /-- every field of the object is certainly unchanged -/
 def Abs.allClean (fs : List Field) (a : Abs) : Bool := fs.all (· ∈ a.clean)
